@@ -13,7 +13,7 @@ def T(module, *names, partial=False):
           "Kanzi.Properties.C03_facts": "Kanzi.C03", "Kanzi.Properties.C18_facts": "Kanzi.C18",
           "Kanzi.Properties.C01": "Kanzi.C01", "Kanzi.Properties.C19_cli": "Kanzi.C19",
           "Kanzi.Properties.C05_jobs": "Kanzi.C05", "Kanzi.Properties.C12_ans0": "Kanzi.C12",
-          "Kanzi.Properties.C01_none": "Kanzi.C01none", "Kanzi.Properties.C03_bound": "Kanzi.C03"}[module]
+          "Kanzi.Properties.C01_none": "Kanzi.C01none", "Kanzi.Properties.C03_bound": "Kanzi.C03", "Kanzi.Properties.C19_levels": "Kanzi.C19"}[module]
     return [{"module": module, "name": n if n.startswith("Kanzi.") else ns + "." + n, "partial": partial or n.endswith("_partial")} for n in names]
 
 
@@ -53,6 +53,7 @@ CLI = {"name": "cli", "kmodel": "cli", "timeout": 7200}
 GOLDEN = {"name": "golden", "timeout": 7200}
 JOBS = {"name": "jobs", "kmodel": "jobs"}
 IMAGE = {"name": "image", "kmodel": "image"}
+LEVELS = {"name": "levels", "timeout": 7200}
 MNONE = "Kanzi.Properties.C01_none"
 MJOBS = "Kanzi.Properties.C05_jobs"
 JOBS_T = ["C05_jobs_partition", "C05_jobs_fewer", "C05_jobs_closed_form", "C05_jobs_errors", "C05_bwt_chunks_covered_gen", "C05_bwt_chunks_covered"]
@@ -270,9 +271,11 @@ PROPS["C18"] = {
 PROPS["C19"] = {
     "title": "Command-line tool: tree round trip and file safety", "design_ref": "5.19", "level": "proof", "needs_cli": True,
     "technique": "PARTIAL Lean proof over a file-system effect model of one file task (no clobber, input untouched, remove-safe at every crash point) with an acceptor run on strace projections of the real binary; tree round trips, refusals and SIGKILL runs on the real binary",
-    "theorems": T("Kanzi.Properties.C19_cli", "C19_no_clobber", "C19_input_untouched", "C19_remove_safe", "C19_acceptor_sound", "C19_trace_accepted"),
-    "streams": [CLI],
-    "level_text": "PARTIAL PROOF. Proved on the effect model of one file task (openOut excl|trunc, write*, closeOut, closeIn, unlink src; crash after any prefix): without force an existing output is never opened for writing and nothing else happens; no effect targets the input except the final unlink; at every crash point the source still has its content or the output is complete and closed; any trace accepted by `cliAccepts` has these properties at every prefix (C19_acceptor_sound). Tie: strace projections (openat/write/close/unlink on the input and output paths) of real runs of the built binary must be accepted. NOT modelled: kernel durability (no fsync: power loss out of scope, SIGKILL is not), directory walking, argument parsing, the level table. Search on the real binary: random trees (empty files, nested dirs, names with spaces) x levels 0-9 / -t -e -b -j -x / --rm / -f / stdin-stdout / -o dir: tree restored byte for byte with exit 0; refusals leave existing files untouched; SIGKILL at random times during --rm runs then every source is intact or its output decodes to it.",
+    "facts": ["Levels", "Names"],
+    "theorems": T("Kanzi.Properties.C19_cli", "C19_no_clobber", "C19_input_untouched", "C19_remove_safe", "C19_acceptor_sound", "C19_trace_accepted")
+                + T("Kanzi.Properties.C19_levels", "C19_level_table_complete", "C19_level_names_valid", "C19_level_default_consistent", "C19_level_blocksizes_valid"),
+    "streams": [CLI, LEVELS],
+    "level_text": "PARTIAL PROOF. Proved on the effect model of one file task (openOut excl|trunc, write*, closeOut, closeIn, unlink src; crash after any prefix): without force an existing output is never opened for writing and nothing else happens; no effect targets the input except the final unlink; at every crash point the source still has its content or the output is complete and closed; any trace accepted by `cliAccepts` has these properties at every prefix (C19_acceptor_sound). Tie: strace projections (openat/write/close/unlink on the input and output paths) of real runs of the built binary must be accepted. NOT modelled: kernel durability (no fsync: power loss out of scope, SIGKILL is not), directory walking, argument parsing. The level table (re-extracted from the CLI source on every run) has exactly the levels 0..9, every level maps to codec names accepted by the library (through the C15 name model), default level and block sizes are valid (C19_level_*). Search on the real binary: random trees (empty files, nested dirs, names with spaces) x levels 0-9 / -t -e -b -j -x / --rm / -f / stdin-stdout / -o dir: tree restored byte for byte with exit 0; refusals leave existing files untouched; SIGKILL at random times during --rm runs then every source is intact or its output decodes to it.",
     "level_note": BASE_NOTE + "strace and the kernel for the observed part; TPAQ-level scenarios are capped in size.",
     "assumptions": ["close(2) reports deferred write errors", "unlink is atomic"],
 }
